@@ -391,7 +391,9 @@ impl<'a, 'b, CS: ChainStore + VersionbitsIndexer + 'static> BlockTxsVerifier<'a,
     ) -> Result<(Cycle, Vec<Completed>), Error> {
         // We should skip updating tx_verify_cache about the cellbase tx,
         // putting it in cache that will never be used until lru cache expires.
-        let fetched_cache = if resolved.len() > 1 {
+        // The cache is left alone when the scripts are skipped: such a run records no
+        // cycles, whether or not an entry from a full run happens to be cached.
+        let fetched_cache = if resolved.len() > 1 && !skip_script_verify {
             self.fetched_cache(resolved)
         } else {
             HashMap::new()
@@ -461,7 +463,9 @@ impl<'a, 'b, CS: ChainStore + VersionbitsIndexer + 'static> BlockTxsVerifier<'a,
             .map(|(_, completed)| completed)
             .cloned()
             .collect();
-        if !ret.is_empty() {
+        // Results obtained without running the scripts carry no cycles, they must not be
+        // served later to a verification which does run them.
+        if !ret.is_empty() && !skip_script_verify {
             self.update_cache(ret);
         }
 
